@@ -390,8 +390,57 @@ func vh_C03_fold_context() {
 	vAssert("C03.context.exact", ok && vConstKindIs(got, int(constant.Int)) && vBigEq(vBigOfConst(got), want))
 }
 
+// The same through the real compile pass: "a OP b" with two typed constants of
+// kind K (symbols of the scope, any values) is compiled by (*Interpreter).cfg;
+// the pass must fail exactly when the exact result leaves the type. This covers
+// the call site of constOverflow in cfg.go, not only the function.
+func vh_C03_cfg_typed() {
+	k := reflect.Kind(vhKind)
+	in := vhNewInterp()
+	in.universe = initUniverse()
+	sc := in.universe.push(false)
+	typ := in.universe.getType(map[reflect.Kind]string{reflect.Int: "int", reflect.Int8: "int8", reflect.Int16: "int16", reflect.Int32: "int32", reflect.Int64: "int64",
+		reflect.Uint: "uint", reflect.Uint8: "uint8", reflect.Uint16: "uint16", reflect.Uint32: "uint32", reflect.Uint64: "uint64", reflect.Uintptr: "uintptr"}[k])
+	xv, x := vhTypedOperand(k, "x")
+	yv, y := vhTypedOperand(k, "y")
+	sc.sym["a"] = &symbol{kind: constSym, typ: typ, rval: xv}
+	sc.sym["b"] = &symbol{kind: constSym, typ: typ, rval: yv}
+	mk := func(kind nkind, act action) *node {
+		var i interface{}
+		n := &node{interp: in, kind: kind, action: act, val: &i, gen: builtin[act]}
+		n.start = n
+		return n
+	}
+	a, b := mk(identExpr, aNop), mk(identExpr, aNop)
+	a.ident, b.ident = "a", "b"
+	act := []action{aAdd, aSub, aMul}[vhOp]
+	n := mk(binaryExpr, act)
+	n.child = []*node{a, b}
+	a.anc, b.anc = n, n
+	stmt := mk(exprStmt, aNop)
+	stmt.child = []*node{n}
+	n.anc = stmt
+	blk := mk(blockStmt, aNop)
+	blk.child = []*node{stmt}
+	stmt.anc = blk
+	var want vBig
+	switch act {
+	case aAdd:
+		want = vBigAdd(x, y)
+	case aSub:
+		want = vBigSub(x, y)
+	default:
+		want = vBigMul(x, y)
+	}
+	fits := vBigLe(vKindMin(k), want) && vBigLe(want, vKindMax(k))
+	vReach("C03.cfg")
+	_, err := in.cfg(blk, sc, "main", "main")
+	vAssert("C03.cfg.overflow-rejected", fits || err != nil)
+	vAssert("C03.cfg.no-spurious-overflow", !fits || err == nil)
+}
+
 var vhRegistry = map[string]func(){
-	"vh_C03_fold_typed": vh_C03_fold_typed, "vh_C03_fold_context": vh_C03_fold_context,
+	"vh_C03_cfg_typed": vh_C03_cfg_typed, "vh_C03_fold_typed": vh_C03_fold_typed, "vh_C03_fold_context": vh_C03_fold_context,
 	"vh_C03_repr_int": vh_C03_repr_int, "vh_C03_repr_other": vh_C03_repr_other, "vh_C03_fold": vh_C03_fold,
 	"vh_C03_shift": vh_C03_shift, "vh_C03_bitwise": vh_C03_bitwise, "vh_C03_materialise": vh_C03_materialise, "vv_models": vv_models,
 }
